@@ -58,9 +58,9 @@ func runC13(c *fw.Ctx) {
 		maxSel, strLen = 3, 8
 	}
 	type item struct {
-		path   string
-		form   int // 0 path-bearing method, 1 URL + Path at URL level, 2 URL + Path at method level
-		subset int // bit mask over the path's parameters
+		path       string
+		form       int  // 0 path-bearing method, 1 URL + Path at URL level, 2 URL + Path at method level
+		subset     int  // bit mask over the path's parameters
 		refDepth   int  // 0 inline object, 1 reference to an object type, 2..3 reference to a type that is itself a reference (alias chain)
 		typesAfter bool // the referenced types are declared after the interaction
 		valForm    int  // schema of each declared parameter: 0 integer literal, 1 string literal, 2 reference to an integer type, 3 float literal with a type rule naming a float type, 4 reference to a string type
